@@ -17,6 +17,8 @@ pub enum Step {
     SetSafeFresh { k: usize },
     /// versioned write with an older version (conflicts)
     SetSafeStale { k: usize },
+    /// `remove` of a key that has a conflict waiting (sent only then): a later write like any other, it has to queue
+    RemoveInConflict { k: usize },
     ArbiterConnect { a: usize },
     ArbiterDisconnect { a: usize },
     /// arbiter `a` answers an outstanding notice: which = 0 oldest, 1 newest, 2 middle; accept = take the new value
@@ -34,7 +36,8 @@ pub fn step_strategy() -> impl Strategy<Value = Step> {
     prop_oneof![
         2 => k.clone().prop_map(|k| Step::PlainSet { k }),
         2 => k.clone().prop_map(|k| Step::SetSafeFresh { k }),
-        4 => k.prop_map(|k| Step::SetSafeStale { k }),
+        4 => k.clone().prop_map(|k| Step::SetSafeStale { k }),
+        1 => k.prop_map(|k| Step::RemoveInConflict { k }),
         3 => a.clone().prop_map(|a| Step::ArbiterConnect { a }),
         1 => a.clone().prop_map(|a| Step::ArbiterDisconnect { a }),
         4 => (a, 0..3u8, any::<bool>()).prop_map(|(a, which, accept)| Step::Resolve { a, which, accept }),
@@ -189,6 +192,20 @@ pub fn step(w: &mut World, st: &Step) -> Option<(String, String)> {
             let km = w.keys.get_mut(key).unwrap();
             km.pending.push(notice);
             w.max_queue = w.max_queue.max(km.pending.len());
+            None
+        }
+        Step::RemoveInConflict { k } => {
+            let key = KEYS[*k];
+            if w.keys[key].pending.is_empty() {
+                return None;
+            }
+            let (val_before, ver_before) = get_safe(&mut w.client, &w.node, key);
+            let (r, _) = w.client.send(&w.node, &format!("remove {}", key));
+            w.node.pump();
+            let (val_after, ver_after) = get_safe(&mut w.client, &w.node, key);
+            if (val_after.clone(), ver_after) != (val_before.clone(), ver_before) {
+                return Some(("C13|later-write-did-not-queue|remove".into(), format!("remove {} while a conflict on it waits for the arbiter -> {}: the key went {:?}@{} -> {:?}@{} at once instead of waiting behind the conflict", key, resp_text(&r), val_before, ver_before, val_after, ver_after)));
+            }
             None
         }
         Step::ArbiterConnect { a } => {
